@@ -33,18 +33,21 @@ structure BufState (ρ : Type) where
   inner : ρ
   buf : Bytes          -- unread part of the buffer
 
-/-- `read_exact(n)` through a buffered reader: loop of `read` calls, each served from the buffer, or — when the
-    buffer is empty and the request is at least the capacity — directly from the inner reader. -/
-def bufReadExact {ρ} (raw : RawOps ρ) (cap : Nat) : Nat → BufState ρ → Nat → Bytes → Except IoKind (Bytes × BufState ρ)
-  | 0, st, need, acc => if need = 0 then .ok (acc, st) else .error .unexpectedEof   -- fuel: unreachable
+/-- `read_exact(n)` (`exact = true`) or `take(n).read_to_end()` (`exact = false`) through a buffered reader: a loop of
+    `read` calls, each served from the buffer (filled first when empty), or — when the buffer is empty and the
+    request is at least the capacity — directly from the inner reader.  At the end of the input `read_exact`
+    fails with UnexpectedEof and `read_to_end` returns what it has. -/
+def bufReadLoop {ρ} (raw : RawOps ρ) (cap : Nat) (exact : Bool) :
+    Nat → BufState ρ → Nat → Bytes → Except IoKind (Bytes × BufState ρ)
+  | 0, st, need, acc => if need = 0 ∨ !exact then .ok (acc, st) else .error .unexpectedEof   -- fuel: unreachable
   | fuel + 1, st, need, acc =>
     if need = 0 then .ok (acc, st)
     else if st.buf.isEmpty ∧ cap ≤ need then
       match raw.read st.inner need with
       | .error e => .error e
       | .ok (b, inner') =>
-        if b.isEmpty then .error .unexpectedEof
-        else bufReadExact raw cap fuel ⟨inner', []⟩ (need - b.length) (acc ++ b)
+        if b.isEmpty then (if exact then .error .unexpectedEof else .ok (acc, ⟨inner', []⟩))
+        else bufReadLoop raw cap exact fuel ⟨inner', []⟩ (need - b.length) (acc ++ b)
     else
       let filled : Except IoKind (BufState ρ) :=
         if st.buf.isEmpty then
@@ -55,10 +58,10 @@ def bufReadExact {ρ} (raw : RawOps ρ) (cap : Nat) : Nat → BufState ρ → Na
       match filled with
       | .error e => .error e
       | .ok st' =>
-        if st'.buf.isEmpty then .error .unexpectedEof
+        if st'.buf.isEmpty then (if exact then .error .unexpectedEof else .ok (acc, st'))
         else
           let k := min need st'.buf.length
-          bufReadExact raw cap fuel ⟨st'.inner, st'.buf.drop k⟩ (need - k) (acc ++ st'.buf.take k)
+          bufReadLoop raw cap exact fuel ⟨st'.inner, st'.buf.drop k⟩ (need - k) (acc ++ st'.buf.take k)
 
 def bufOps {ρ} (cap : Nat) (raw : RawOps ρ) : CursorOps (BufState ρ) where
   isEof st :=
@@ -74,7 +77,7 @@ def bufOps {ρ} (cap : Nat) (raw : RawOps ρ) : CursorOps (BufState ρ) where
     match raw.len st.inner with
     | .error e => .error e
     | .ok (l, inner') => .ok (l, ⟨inner', st.buf⟩)
-  readExact st n := bufReadExact raw cap (n + 1) st n []
+  readExact st n := bufReadLoop raw cap true (n + 1) st n []
   skip st n :=
     -- skip.rs:74-82: skip what is not buffered in the inner reader first, then consume the buffer
     let bufLen := st.buf.length
@@ -85,23 +88,31 @@ def bufOps {ρ} (cap : Nat) (raw : RawOps ρ) : CursorOps (BufState ρ) where
         | .ok inner' => .ok ⟨inner', []⟩
       else .ok ⟨st.inner, []⟩
     else .ok ⟨st.inner, st.buf.drop n⟩
-  readUpTo st n :=
-    -- `take(n).read_to_end()`: repeated reads until n bytes or end of stream
-    let rec go : Nat → BufState ρ → Nat → Bytes → Except IoKind (Bytes × BufState ρ)
-      | 0, st, _, acc => .ok (acc, st)
-      | fuel + 1, st, need, acc =>
-        if need = 0 then .ok (acc, st)
-        else if !st.buf.isEmpty then
-          let k := min need st.buf.length
-          go fuel ⟨st.inner, st.buf.drop k⟩ (need - k) (acc ++ st.buf.take k)
-        else
-          match raw.read st.inner (if cap ≤ need then need else cap) with
+  readUpTo st n := bufReadLoop raw cap false (n + 1) st n []
+
+/-- a buffered reader seen as an input itself (for stacks: BufReader over Box over BufReader …): one `read` call is
+    served from the buffer (after a fill when empty), or bypasses it when empty and the request is ≥ capacity -/
+def bufRaw {ρ} (cap : Nat) (raw : RawOps ρ) : RawOps (BufState ρ) where
+  read st n :=
+    if st.buf.isEmpty ∧ cap ≤ n then
+      match raw.read st.inner n with
+      | .error e => .error e
+      | .ok (b, inner') => .ok (b, ⟨inner', []⟩)
+    else
+      let filled : Except IoKind (BufState ρ) :=
+        if st.buf.isEmpty then
+          match raw.read st.inner cap with
           | .error e => .error e
-          | .ok (b, inner') =>
-            if b.isEmpty then .ok (acc, ⟨inner', []⟩)
-            else if cap ≤ need then go fuel ⟨inner', []⟩ (need - b.length) (acc ++ b)
-            else go fuel ⟨inner', b⟩ need acc
-    go (n + 1) st n []
+          | .ok (b, inner') => .ok ⟨inner', b⟩
+        else .ok st
+      match filled with
+      | .error e => .error e
+      | .ok st' =>
+        let k := min n st'.buf.length
+        .ok (st'.buf.take k, ⟨st'.inner, st'.buf.drop k⟩)
+  skip st n := (bufOps cap raw).skip st n
+  position st := (bufOps cap raw).position st
+  len st := (bufOps cap raw).streamLen st
 
 /-- operation number `k` of a raw input fails with `e` (C13); state carries the operation counter -/
 def faultyRaw {ρ} (raw : RawOps ρ) (k : Nat) (e : IoKind) : RawOps (ρ × Nat) where
@@ -116,5 +127,47 @@ def meteredRaw {ρ} (raw : RawOps ρ) : RawOps (ρ × Nat) where
   skip s n := (raw.skip s.1 n).map fun r => (r, s.2)
   position s := (raw.position s.1).map fun (p, r) => (p, (r, s.2))
   len s := (raw.len s.1).map fun (p, r) => (p, (r, s.2))
+
+end MediaSan
+
+namespace MediaSan
+open MediaSan
+
+/-! ### `SeekSkipAdapter` over a `Seek` with `std::io::Cursor` semantics (common/src/skip.rs:103-137) -/
+
+inductive SeekFrom where
+  | start (n : Nat)
+  | current (d : Nat)      -- the adapter only seeks forward (or by 0)
+  | endOff (d : Nat)
+
+/-- `Cursor::seek`: any u64 target is fine (also past the end); an overflowing one is InvalidInput -/
+def cursorSeek (len : Nat) (pos : Nat) : SeekFrom → Except IoKind Nat
+  | .start n => .ok n
+  | .current d => if pos + d < u64Lim then .ok (pos + d) else .error .invalidInput
+  | .endOff d => if len + d < u64Lim then .ok (len + d) else .error .invalidInput
+
+/-- `SeekSkipAdapter::skip` -/
+def seekSkip (len pos amount : Nat) : Except IoKind Nat :=
+  if amount ≤ i64Max then
+    (if amount = 0 then .ok pos else cursorSeek len pos (.current amount))
+  else
+    -- amount does not fit i64: stream_position, checked_add, SeekFrom::Start
+    match cursorSeek len pos (.current 0) with
+    | .error e => .error e
+    | .ok p => if p + amount < u64Lim then cursorSeek len p (.start (p + amount)) else .error .invalidData
+
+/-- `SeekSkipAdapter::stream_len`: position, seek to the end, seek back unless already there; returns (len, final position) -/
+def seekStreamLen (len pos : Nat) : Except IoKind (Nat × Nat) :=
+  match cursorSeek len pos (.current 0) with
+  | .error e => .error e
+  | .ok p =>
+    match cursorSeek len p (.endOff 0) with
+    | .error e => .error e
+    | .ok l =>
+      if p ≠ l then
+        match cursorSeek len l (.start p) with
+        | .error e => .error e
+        | .ok p' => .ok (l, p')
+      else .ok (l, l)
 
 end MediaSan
